@@ -96,7 +96,7 @@ func (g *genReader) Read(p []byte) (int, error) {
 	if g.off >= len(g.data) {
 		return 0, io.EOF
 	}
-	n := g.chunks[g.i%len(g.chunks)]
+	n := chunkAt(g.chunks, g.i)
 	g.i++
 	if n <= 0 {
 		n = 1
@@ -196,10 +196,7 @@ func runCL(c CLCase, u *vf.Unit) *vf.Verdict {
 		}
 		off, i := 0, 0
 		for off < len(body) {
-			n := c.Chunks[i%len(c.Chunks)]
-			if n == 0 && i > 2*len(c.Chunks) {
-				n = 1000
-			}
+			n := chunkAt(c.Chunks, i)
 			i++
 			n = min(n, len(body)-off)
 			m, err := rw.Write(body[off : off+n])
